@@ -1,6 +1,7 @@
 package main
 
 import (
+	"encoding/json"
 	"flag"
 	"fmt"
 	"os"
@@ -18,6 +19,10 @@ func main() {
 	switch os.Args[1] {
 	case "run":
 		runCmd(os.Args[2:])
+	case "check":
+		os.Exit(checkCmd(os.Args[2:]))
+	case "replay":
+		os.Exit(replayCmd(os.Args[2:]))
 	default:
 		fmt.Fprintln(os.Stderr, "unknown command", os.Args[1])
 		os.Exit(2)
@@ -93,4 +98,42 @@ func runCmd(args []string) {
 func fatal(err error) {
 	fmt.Fprintln(os.Stderr, "vsym:", err)
 	os.Exit(2)
+}
+
+// replayCmd re-runs a recorded counterexample natively against /repo.
+func replayCmd(args []string) int {
+	fs := flag.NewFlagSet("replay", flag.ExitOnError)
+	repo := fs.String("repo", "/repo", "repository")
+	root := fs.String("root", "/verif", "verif root")
+	fs.Parse(args)
+	if fs.NArg() != 1 {
+		fmt.Fprintln(os.Stderr, "usage: vsym replay <file>")
+		return 2
+	}
+	b, err := os.ReadFile(fs.Arg(0))
+	if err != nil {
+		fatal(err)
+	}
+	var doc struct {
+		Property string     `json:"property"`
+		Config   string     `json:"config"`
+		Case     ReplayCase `json:"case"`
+		Label    string     `json:"label"`
+		Kind     string     `json:"kind"`
+	}
+	if err := json.Unmarshal(b, &doc); err != nil {
+		fatal(err)
+	}
+	rp := &Replayer{Repo: *repo, HarnessDir: *root + "/harness", Portable: doc.Config == "portable", Pkgs: []string{doc.Case.Pkg}}
+	defer rp.Cleanup()
+	res, err := rp.Run([]ReplayCase{doc.Case})
+	if err != nil {
+		fatal(err)
+	}
+	r := res[0]
+	fmt.Printf("replay property=%s harness=%s kind=%s label=%s -> native outcome=%s failures=%v reached=%v panic=%q\n", doc.Property, doc.Case.Harness, doc.Kind, doc.Label, r.Outcome, r.Failures, r.Reached, firstLine(r.Panic))
+	if r.Outcome == "OK" {
+		return 0
+	}
+	return 1
 }
